@@ -41,7 +41,9 @@ namespace GeographicLib {
       // followed by 1752-09-14. We also assume that the year always begins
       // with January 1, whereas in reality it often was reckoned to begin in
       // March.
-      return 100 * (100 * y + m) + d >= 17520914; // or 15821015
+      // 1752-09-14 or later (or 1582-10-15); compare the fields one by one to
+      // avoid overflowing 100 * (100 * y + m) + d for large y
+      return y != 1752 ? y > 1752 : (m != 9 ? m > 9 : d >= 14);
     }
     static bool gregorian(int s) {
       return s >= 639799;       // 1752-09-14
